@@ -215,6 +215,9 @@ def class_attr_value(ex, ci, name, expr):
 def class_getattr(ex, cv, name, node=None):
     ci = cv.ci
     if isinstance(ci, tuple):
+        if ci[1] == 'builtins.str' and name == '__new__':
+            P_ = _P()
+            return Builtin('str.__new__', lambda ex_, a, k: new_object(ex_, a[0].ci, payload=P_.py_str(ex_, a[1]) if len(a) > 1 else ''))
         return ex.models.ext_value(f'{ci[1]}.{name}')
     if name == '__name__':
         return ci.name.split('.')[-1]
@@ -267,6 +270,8 @@ def abstract_getattr(ex, ref, cell, name):
 
 def hasattr_(ex, obj, name):
     if not isinstance(name, str):
+        if isinstance(obj, Ref) and isinstance(ex.run.cell(obj), AbstractObj) and ex.run.cell(obj).iface.hasattr is not None:
+            return ex.run.cell(obj).iface.hasattr(ex, obj, name)
         raise OutOfSubset('hasattr with symbolic name')
     if isinstance(obj, Ref):
         cell = ex.run.cell(obj)
